@@ -99,6 +99,11 @@ pub fn gen(ctx: &Ctx, rng: &mut Rng, out: &mut Vec<String>) {
         out.push(format!("c03.row\t{}\t{}\t{}", n + 1, k, m + 1));
     }
     out.push(format!("c03.row\t{},{}\t{},{}\t{},{}", 1101, 3, 540, 1, 551, 2));
+    // every source size 1..=260 (thorough 600) once: the rows of the extreme and the middle source entries, projected to two chromosomes
+    for n in 1..=(if ctx.tier_thorough { 600usize } else { 260 }) {
+        for k in [0, n / 2, n] { out.push(format!("c03.row\t{}\t{}\t{}", n + 1, k, n.min(2) + 1)); }
+        if n % 8 == 0 { out.push(format!("c03.row\t{}\t{}\t{}", n + 1, n, n)); }
+    }
     // single coefficients at large sizes (the factorial table ends at 170; binomials leave f64 range near 1030)
     let sizes: &[u64] = if ctx.tier_thorough { &[1, 2, 3, 50, 169, 170, 171, 172, 340, 341, 500, 1029, 1030, 1031, 2000, 5000] }
                         else { &[1, 2, 3, 169, 170, 171, 172, 500, 1029, 1030, 2000, 5000] };
